@@ -643,6 +643,51 @@ impl Ctx {
         self.step(Op::Format(f))
     }
 
+    /// What an earlier use of the medium may have left where the new volume's tables and root directory will be:
+    /// plausible directory records over the head of every FAT copy, the whole root region (all of its sectors) and
+    /// the first data clusters. Formatting must produce the same empty volume whatever was there.
+    pub fn junk_before_format(&mut self) {
+        let v = self.vol.clone();
+        let bps = v.bps as u64;
+        let record = |i: u64| -> Vec<u8> {
+            let mut r = Vec::with_capacity(32);
+            r.extend_from_slice(format!("JUNK{:04}BIN", i % 10000).as_bytes());
+            r.push(0x20);
+            r.extend_from_slice(&[0u8; 14]);
+            r.extend_from_slice(&((3 + i % 7) as u16).to_le_bytes());
+            r.extend_from_slice(&(1000u32 + i as u32).to_le_bytes());
+            r
+        };
+        let fill = |off: u64, len: u64| -> (u64, Vec<u8>) {
+            let mut b = Vec::with_capacity(len as usize);
+            let mut i = off / 32;
+            while (b.len() as u64) < len {
+                b.extend_from_slice(&record(i));
+                i += 1;
+            }
+            b.truncate(len as usize);
+            (off, b)
+        };
+        let mut ws = Vec::new();
+        for c in 0..v.fats as u64 {
+            ws.push(fill((v.reserved as u64 + c * v.spf as u64) * bps, (v.spf as u64 * bps).min(1024)));
+        }
+        let root_start = (v.reserved as u64 + v.fats as u64 * v.spf as u64) * bps;
+        let root_bytes = (v.root_entries as u64 * 32 + bps - 1) / bps * bps;
+        if root_bytes > 0 {
+            ws.push(fill(root_start, root_bytes.min(32 * 1024)));
+            // the last sector of the root region in any case
+            if root_bytes > 32 * 1024 {
+                ws.push(fill(root_start + root_bytes - bps, bps));
+            }
+        }
+        ws.push(fill(root_start + root_bytes, (2 * v.cs as u64).min(8 * 1024)));
+        let ws: Vec<(u64, Vec<u8>)> = ws.into_iter().filter(|(o, b)| o + b.len() as u64 <= v.dev_size).collect();
+        if !ws.is_empty() {
+            self.step(Op::Raw(ws));
+        }
+    }
+
     pub fn mount(&mut self) -> Out {
         let r = self.step(Op::Mount);
         if r.is_ok() {
